@@ -62,8 +62,20 @@ pub fn generate(kind: &str, seed: u64, run: u64, _thorough: bool) -> Scenario {
             ex.insert(Yaml::Number(7.into()), Yaml::String("int key".into()));
             ex.insert("f".into(), Yaml::String("1e3".into()));
             ex.insert("g".into(), Yaml::String("0o17".into()));
+            // the very last scalar of the file is a block scalar ending in a line break
+            ex.insert("z".into(), Yaml::String("done\n".into()));
             if let Some(Yaml::Sequence(tn)) = y.as_mapping_mut().and_then(|m| m.get_mut("true_negatives")) {
                 tn.push(Yaml::Mapping(ex));
+            }
+        }
+        // now and then a very large rule (tens of KiB of text)
+        if rr.chance(1, 60) {
+            if let Some(det) = y.as_mapping_mut().and_then(|m| m.get_mut("detection")).and_then(|d| d.as_mapping_mut()) {
+                let n = *rr.pick(&[2_000usize, 5_000, 8_000]);
+                let items: Vec<Yaml> = (0..n).map(|i| Yaml::String(format!("v{:05}", i))).collect();
+                let mut m = serde_yaml::Mapping::new();
+                m.insert("e".into(), Yaml::Sequence(items));
+                det.insert("Huge".into(), Yaml::Mapping(m));
             }
         }
         let mut text = gen::rule_text(&y);
@@ -94,6 +106,7 @@ pub fn generate(kind: &str, seed: u64, run: u64, _thorough: bool) -> Scenario {
             3 => format!("{}...\n", text),
             4 => format!("# a comment\n{}\n# trailing comment\n", text),
             5 => format!("\u{feff}{}", text),
+            6 => serde_json::to_string(&serde_yaml::from_str::<serde_json::Value>(&text).unwrap_or(serde_json::Value::Null)).unwrap_or_else(|_| text.clone()),
             _ => text.clone(),
         };
         if serde_yaml::from_str::<Yaml>(&variant).ok() == serde_yaml::from_str::<Yaml>(&text).ok() {
@@ -186,7 +199,11 @@ pub fn execute(sc: &Scenario) -> Outcome {
     if let Ok(y) = serde_yaml::from_str::<Yaml>(&sc.rule_text) {
         match guarded(|| Rule::from_value(y)) {
             Ok(Ok(r2)) => {
-                if show(&r2) != show(&rule) || verdicts(&r2, sc) != base_verdicts {
+                if show(&r2) != show(&rule)
+                    || verdicts(&r2, sc) != base_verdicts
+                    || r2.true_positives != rule.true_positives
+                    || r2.true_negatives != rule.true_negatives
+                {
                     push_violation(
                         &mut vs,
                         Violation::new("from_str_and_from_value_disagree", "tree".into(), format!("from_str: {}\nfrom_value: {}", show(&rule), show(&r2))),
@@ -211,7 +228,11 @@ pub fn execute(sc: &Scenario) -> Outcome {
         if std::fs::write(&path, &sc.rule_text).is_ok() {
             match guarded(|| Rule::load(&path)) {
                 Ok(Ok(r3)) => {
-                    if show(&r3) != show(&rule) || verdicts(&r3, sc) != base_verdicts {
+                    if show(&r3) != show(&rule)
+                        || verdicts(&r3, sc) != base_verdicts
+                        || r3.true_positives != rule.true_positives
+                        || r3.true_negatives != rule.true_negatives
+                    {
                         push_violation(
                             &mut vs,
                             Violation::new("load_and_from_str_disagree", "tree".into(), format!("Rule::load of the same text gives another rule:\n  {}\n  {}", show(&rule), show(&r3))),
